@@ -336,7 +336,8 @@ class Canon:
             return None
         if any(isinstance(x, (ast.Yield, ast.YieldFrom, ast.Await, ast.Global, ast.Nonlocal)) for x in ast.walk(h.node)):
             return None
-        if self._refs.get(name, 0) > 2 and sum(1 for x in ast.walk(h.node) if isinstance(x, ast.stmt)) - 1 > 5:
+        n_stmts = sum(1 for x in ast.walk(h.node) if isinstance(x, ast.stmt)) - 1
+        if self._refs.get(name, 0) > 1 and n_stmts > (8 if self._refs.get(name, 0) == 2 else 5):
             return None  # a helper shared by several callers is only written out when it is small
         return h
 
@@ -587,7 +588,11 @@ class Canon:
         node = _Small().visit(node)
         # nested multi-statement defs: their own single-assignment locals
         for sub in [x for x in ast.walk(node) if isinstance(x, ast.FunctionDef) and x is not node]:
-            new = self._close(copy.deepcopy(sub))
+            new = copy.deepcopy(sub)
+            new.body = _Blocks().block(_strip_doc(new.body), "func")
+            new = _AppendLoops().visit(_Small().visit(new))
+            new = self._close(new)
+            new.body = _hoist(_Blocks().block(new.body, "func"))
             sub.body = new.body
         node = _IfExp().visit(node)
         node.body = _hoist(_Blocks().block(node.body, "func"))
@@ -659,14 +664,39 @@ def _replace_returns(body, mode, site):
         return out
 
     new = rep(body)
-    if mode == "assign" and not _terminates_with_assign(new, site):
-        # a path without `return` yields None
-        pass
+    if mode == "assign":
+        new = _assign_none_on_fallthrough(new, site)
     return new
 
 
-def _terminates_with_assign(body, site):
-    return True
+def _assign_none_on_fallthrough(body, site):
+    """a path of the helper that ends without `return` yields None: make that explicit for `target = helper(...)`"""
+    def none_assign(at):
+        return ast.copy_location(ast.Assign(targets=copy.deepcopy(site.targets), value=ast.Constant(value=None), lineno=getattr(at, "lineno", site.lineno)), at)
+
+    def is_target_assign(st):
+        return isinstance(st, ast.Assign) and len(st.targets) == len(site.targets) and all(txt(a) == txt(b) for a, b in zip(st.targets, site.targets))
+
+    def fix(b):
+        if not b:
+            return [none_assign(site)]
+        st = b[-1]
+        if is_target_assign(st) or isinstance(st, ast.Raise):
+            return b
+        if isinstance(st, ast.If):
+            st.body = fix(list(st.body))
+            st.orelse = fix(list(st.orelse))
+            return b
+        if isinstance(st, ast.Try) and not st.finalbody:
+            st.body = fix(list(st.body)) if not st.orelse else st.body
+            if st.orelse:
+                st.orelse = fix(list(st.orelse))
+            for h in st.handlers:
+                h.body = fix(list(h.body))
+            return b
+        return b + [none_assign(st)]
+
+    return fix(list(body))
 
 
 class _Drop(ast.NodeTransformer):
@@ -819,12 +849,16 @@ def _own_nodes(st):
 
 
 def _statements(fn):
-    """[(stmt, order, enclosing loops, in try body, block, index)] in source order"""
+    """[(stmt, order, enclosing loops, in try body, block, index)] in source order; `_statements.last[order]` = order of the last statement nested in it"""
     out = []
+    last = {}
+    _statements.last = last
 
     def scan(body, loops, in_try):
         for i, st in enumerate(body):
-            out.append((st, len(out), loops, in_try, body, i))
+            my = len(out)
+            out.append((st, my, loops, in_try, body, i))
+            last[my] = my
             if isinstance(st, (ast.FunctionDef, ast.AsyncFunctionDef, ast.ClassDef)):
                 continue
             inner = loops + (id(st),) if isinstance(st, (ast.For, ast.AsyncFor, ast.While)) else loops
@@ -835,6 +869,7 @@ def _statements(fn):
             if isinstance(st, ast.Try):
                 for h in st.handlers:
                     scan(h.body, loops, in_try)
+            last[my] = len(out) - 1
 
     scan(fn.body, (), False)
     return out
@@ -864,6 +899,8 @@ def _aliases(fn):
     if fn.args.kwarg:
         params.add(fn.args.kwarg.arg)
     table = _statements(fn)
+    last_nested = dict(_statements.last)
+    order_of = {id(st): order for st, order, *_ in table}
     value, site, banned, mutated, loads, last_use = {}, {}, set(), set(), {}, {}
     name_stores = {}   # name -> [(order, loops)]
     text_stores = {}   # text of a stored attribute / subscripted object -> [(order, loops)]
@@ -964,6 +1001,10 @@ def _aliases(fn):
         uses = loads.get(k, 0)
         if uses == 0:
             continue  # `_ = self.data`: evaluated for its effect (a property read), stays as written
+        # the assignment must come before every use on every path: all uses lie in the rest of its own block
+        block_end = last_nested.get(order_of.get(id(body[-1]), order), order)
+        if any(not (order < u <= block_end) for u in use_sites.get(k, [])):
+            continue
         if any(isinstance(x, ast.Attribute) for x in ast.walk(v)):
             # a value that reads object state does not move across a statement that may change the state (a call with possible effects):
             # neither a statement between the assignment and the last use, nor the body of a loop that is entered after the assignment
